@@ -63,7 +63,7 @@ ASSUMPTIONS = [
     'known defects of C11 are matched by their own signatures: every valid LIS file fails (C11-lis-null-value)',
 ]
 SHARDS = {'quick': 4, 'thorough': 16}
-REQUIRED_CLASSES = {'sub-directories:two-levels-down-recursive': 1, 'dot-name': 1, 'nontrivial': 1, 'jobs>1': 1, 'foreign-file': 1, 'damaged-sorts-first:names': 1, 'damaged-sorts-first:sizes': 1, 'empty-file': 1,
+REQUIRED_CLASSES = {'sub-directories:two-levels-down-recursive': 1, 'name-begins-with-the-whole-name-of-a-bad-file': 1, 'dot-name': 1, 'nontrivial': 1, 'jobs>1': 1, 'foreign-file': 1, 'damaged-sorts-first:names': 1, 'damaged-sorts-first:sizes': 1, 'empty-file': 1,
                     'converter:RP66V1': 1, 'converter:LIS': 1, 'converter:BIT': 1, 'orders-differ': 1}
 
 O_ESCAPE = 'no-exception-escapes'
@@ -195,6 +195,15 @@ def directories(draw, converter, tier):
     else:
         for i, f in enumerate(files):
             f['name'] = names[i]
+    # one input's whole name is the beginning of another's (RUN1 and RUN10, log.lis and log.lis.bak): their outputs share a prefix
+    bad = [f for f in files if f['kind'] in ('damaged', 'foreign', 'empty')]
+    good = [f for f in files if f['kind'] == 'valid']
+    if bad and good and draw(st.integers(0, 2)) == 0:
+        b_, g_ = bad[draw(st.integers(0, len(bad) - 1))], good[draw(st.integers(0, len(good) - 1))]
+        nm = b_['name'] + draw(st.sampled_from(['0', '1', '_2', '.bak', 'x']))
+        if nm not in [f['name'] for f in files]:
+            g_['name'] = nm
+            g_['prefixed_by'] = b_['name']
     # names that begin with a dot (editor and macOS droppings such as '._RUN1.dlis', hidden files) are files like any other
     if draw(st.integers(0, 3)) == 0:
         f = files[draw(st.integers(0, len(files) - 1))]
@@ -205,6 +214,9 @@ def directories(draw, converter, tier):
         for f in files:
             f['dir'] = draw(st.sampled_from(['', '', 'sub', 'sub/deep', 'sub/deep/er', 'other', 'other/x', '.dot']))
         recurse = draw(st.integers(0, 3)) != 0
+        for f in files:     # prefix-related names stay side by side
+            if f.get('prefixed_by'):
+                f['dir'] = next((q.get('dir', '') for q in files if q['name'] == f['prefixed_by']), f.get('dir', ''))
     jobs = list(JOBS) if tier == 'thorough' else sorted(draw(st.lists(st.sampled_from(JOBS), min_size=2, max_size=2, unique=True)))
     # channel request: empty, or plain channel names of the valid files (the index channels are never asked for)
     channels = []
@@ -313,6 +325,7 @@ def check(case, cc):
     names = [os.path.join(f.get('dir', ''), f['name']) for f in files]     # relative to the input directory
     recurse = bool(case.get('recurse'))
     walked = [i for i in range(len(files)) if recurse or not files[i].get('dir')]      # the files a walk of the directory finds
+    cc.cls('name-begins-with-the-whole-name-of-a-bad-file', any(f.get('prefixed_by') for f in files))
     cc.cls('dot-name', any(f['name'].startswith('.') or f.get('dir', '').startswith('.') for f in files))
     cc.cls('sub-directories', any(f.get('dir') for f in files))
     cc.cls('sub-directories:two-levels-down-recursive', recurse and any(f.get('dir', '').count('/') >= 1 for f in files))
